@@ -4,6 +4,38 @@ own predicates evaluated on the implementation."""
 import numpy as np
 from harness import common as C
 
+
+# ---- source tie (harness/translate.py -> lean/TaurexModel/Gen/SrcC04.lean, theorems in lean/Props/C04Src.lean)
+_K = dict(x11='elem', x12='elem', x21='elem', x22='elem', T='s', Tmin='s', Tmax='s', P='s', Pmin='s', Pmax='s')
+_IO = 'taurex/opacity/interpolateopacity.py'
+_ATTRS = {'self.temperatureGrid': ('tg', 'arr'), 'self.logPressure': ('pg', 'arr'), 'self.xsecGrid': ('xsec', 'arr2'),
+          'self.pressureMax': ('pressureMax', 's'), 'self.temperatureMax': ('temperatureMax', 's')}
+_DIMS = {'self.xsecGrid': ['nP', 'nT'], 'self.temperatureGrid': ['nT'], 'self.logPressure': ['nP']}
+_ENUM = {'self._interp_mode': ('mode', {'linear': 0, 'exp': 1})}
+SRC_SPECS = [
+    dict(module='taurex/util/math.py', func='interp_lin_only', lean='interp_lin_only',
+         params={k: _K[k] for k in ('x11', 'x12', 'P', 'Pmin', 'Pmax')}),
+    dict(module='taurex/util/math.py', func='interp_exp_only', lean='interp_exp_only',
+         params={k: _K[k] for k in ('x11', 'x12', 'T', 'Tmin', 'Tmax')}),
+    dict(module='taurex/util/math.py', func='intepr_bilin', lean='intepr_bilin', params=_K),
+    dict(module='taurex/util/math.py', func='interp_exp_and_lin', lean='interp_exp_and_lin', params=_K),
+    dict(module='taurex/util/util.py', func='find_closest_pair', lean='find_closest_pair',
+         params=dict(arr='skip', value='skip'), nat_externals={'arr.searchsorted(value)': 'searchsorted'},
+         lens={'arr': 'n'}, returns='natpair'),
+    dict(module=_IO, cls='InterpolatingOpacity', func='interp_temp_only', callname='self.interp_temp_only',
+         lean='interp_temp_only', params=dict(T='s', t_idx_min='nat', t_idx_max='nat', P='nat', filt='skip'),
+         lift=['filt'], attrs=_ATTRS, dims=_DIMS, enums=_ENUM, index_dims={'P': 'nP'}, raise_value='(0 : α)'),
+    dict(module=_IO, cls='InterpolatingOpacity', func='interp_pressure_only', callname='self.interp_pressure_only',
+         lean='interp_pressure_only', params=dict(P='s', p_idx_min='nat', p_idx_max='nat', T='nat', filt='skip'),
+         lift=['filt'], attrs=_ATTRS, dims=_DIMS, index_dims={'T': 'nT'}),
+    dict(module=_IO, cls='InterpolatingOpacity', func='interp_bilinear_grid', lean='interp_bilinear_grid',
+         params=dict(T='s', P='s', t_idx_min='nat', t_idx_max='nat', p_idx_min='nat', p_idx_max='nat',
+                     wngrid_filter='skip'),
+         lift=['wngrid_filter'], attrs=_ATTRS, dims=_DIMS, enums=_ENUM, raise_value='(0 : α)',
+         tuples={'self.pressureBounds': [('pMinB', 's'), ('pMaxB', 's')],
+                 'self.temperatureBounds': [('tMinB', 's'), ('tMaxB', 's')]}),
+]
+
 RULE = ('tables 2-8 nodes per axis, magnitudes 1e-40..1, 1-6 wavenumbers, optional k-table layout (1-4 g-points), '
         'linear/exp mode, optional wavenumber sub-range; (T,P) drawn by quota: interior, 8 outside regions, exact '
         'nodes, exact edges, +-1ulp around nodes, first/last node of one axis x other axis outside/inside, corner nodes. distinct non-trivial = distinct (mode, layout, region, nT, nP) '
